@@ -49,6 +49,12 @@ def h2(x, y=2):
     return 2
 
 
+# a caller whose body performs a table-driven nested call (explicit version: no dependency validation)
+@m.memento_function(cluster="c", version="1")
+def nest(k):
+    return rt.produce("nest", k)
+
+
 SIGS = {
     # name: (positional-or-keyword params in order, keyword-only params, required, accepts **kw)
     "g1": (["a"], [], ["a"], False),
